@@ -65,6 +65,8 @@ StepPred(name, wp, ev, w2, hp, r) ==
     [] name = "P06_Underfunded" -> P06_Underfunded(wp, ev, w2, hp, r)
     [] name = "P07_ReturnedNonce" -> P07_ReturnedNonce(wp, ev, w2, hp, r)
     [] name = "P07_Handover" -> P07_Handover(wp, ev, w2, hp, r)
+    [] name = "P07_FaultNonce" -> P07_FaultNonce(wp, ev, w2, hp, r)
+    [] name = "P02_FreshNonce" -> P02_FreshNonce(wp, ev, w2, hp, r)
     [] name = "P07_CtrOnlyByCreate" -> P07_CtrOnlyByCreate(wp, ev, w2, hp, r)
     [] name = "P08_Conf" -> P08_Conf(wp, ev, w2, hp, r)
     [] name = "P08_Create" -> P08_Create(wp, ev, w2, hp, r)
@@ -92,7 +94,7 @@ StepPred(name, wp, ev, w2, hp, r) ==
     [] name = "P00_ReplayAgrees" -> P00_ReplayAgrees(wp, ev, w2, hp, r)
     [] name = "P01_DeliveryNominal" -> P01_DeliveryNominal(wp, ev, w2, hp, r)
     [] OTHER -> TRUE
-StepNames == {"P04_FlagTakesEffect", "P03_RoleOpsExact", "P18_UserNameBound", "P00_ReplayAgrees", "P01_DeliveryNominal", "P16_ProbePrice", "P16_Charged", "P10_ParserEqualsLedger", "P10_RoundTrip", "P10_Accepted", "P11_Shape", "P11_ShapeVerdict", "P11_Alloc", "P13_Replicas", "P13_InputIntact", "P17_FaultIsError", "P17_NoPanic", "P01_Exact", "P01_DeliveryAccepted", "P01_RefundRestores", "P01_FailKeeps", "P02_Delta", "P02_Others", "P02_NoOverdraft", "P03_Authority", "P03_Grant", "P03_Denied", "P04_Immobile", "P04_NoCreditWhilePaused", "P04_FlagOnly", "P04_Restores", "P05_Protected", "P05_KVExact", "P05_Frame", "P06_NoGasCreated", "P06_Underfunded", "P07_ReturnedNonce", "P07_Handover", "P07_CtrOnlyByCreate", "P08_Conf", "P08_Create", "P08_OnlyUriAttr", "P08_UriAttrExact", "P08_WrongHash", "P09_Admissible", "P09_Rejected", "P16_Price"}
+StepNames == {"P07_FaultNonce", "P02_FreshNonce", "P04_FlagTakesEffect", "P03_RoleOpsExact", "P18_UserNameBound", "P00_ReplayAgrees", "P01_DeliveryNominal", "P16_ProbePrice", "P16_Charged", "P10_ParserEqualsLedger", "P10_RoundTrip", "P10_Accepted", "P11_Shape", "P11_ShapeVerdict", "P11_Alloc", "P13_Replicas", "P13_InputIntact", "P17_FaultIsError", "P17_NoPanic", "P01_Exact", "P01_DeliveryAccepted", "P01_RefundRestores", "P01_FailKeeps", "P02_Delta", "P02_Others", "P02_NoOverdraft", "P03_Authority", "P03_Grant", "P03_Denied", "P04_Immobile", "P04_NoCreditWhilePaused", "P04_FlagOnly", "P04_Restores", "P05_Protected", "P05_KVExact", "P05_Frame", "P06_NoGasCreated", "P06_Underfunded", "P07_ReturnedNonce", "P07_Handover", "P07_CtrOnlyByCreate", "P08_Conf", "P08_Create", "P08_OnlyUriAttr", "P08_UriAttrExact", "P08_WrongHash", "P09_Admissible", "P09_Rejected", "P16_Price"}
 
 \* state predicates (on the recorded post-state and the history after the step)
 StatePred(name, w2, h2) ==
